@@ -11,6 +11,7 @@ Require Import Gram.Model.Term Gram.Model.DeBruijn Gram.Model.Eval Gram.Spec.Cbv
 Require Import Gram.Model.ModelB Gram.Spec.Typing Gram.Proofs.ConfluenceTyping Gram.Proofs.ConvConsistent Gram.Proofs.SafetyHF.
 Require Gram.Proofs.ConfluenceEval Gram.Proofs.TcSoundHF.
 Require Gram.Model.ParserPost Gram.Proofs.EvalEnvProofs Gram.Proofs.DefinitionOrder.
+Require Gram.Proofs.AcyclicProofs Gram.Proofs.UnifyConsistent Gram.Proofs.TcSoundHoles Gram.Proofs.TcHolesOk Gram.Proofs.SafetyHoles.
 
 Theorem C01_stuck_classified : forall t, step t = None -> is_value t = false ->
   exists E r k, ectx_ok E = true /\ t = plug E r /\ stuck_redex r k /\ stuck_reason t = Some k.
@@ -94,3 +95,27 @@ Theorem C01_D7_guard_accepts_checks_reject : ltac:(let T1 := type of DefinitionO
 Proof. exact (conj DefinitionOrder.d7_guard_accepts (conj DefinitionOrder.order_ok_rejects DefinitionOrder.d7_evaluate_stuck)). Qed.
 Check C01_D7_guard_accepts_checks_reject : _ /\ _ /\ _.
 Print Assumptions C01_D7_guard_accepts_checks_reject.
+
+(* ... and WITH inferred annotations (Proofs/SafetyHoles.v): simply typed group-free programs whose binder annotations are
+   omitted (`simple`), whenever neither instrumented event occurs while checking (hooks H1 / H3 silent): the accepted program,
+   completed with any base type in the cells left unsolved, evaluates to a value of the reported type or stops on a division
+   by zero. *)
+Theorem C01_accepted_programs_with_inferred_annotations_are_safe : forall H f s t r v,
+  TcHolesOk.simple t = true -> ConfluenceEval.no_let t = true ->
+  TcHolesOk.J s -> TcSoundHoles.store_okM H s -> AcyclicProofs.acyclic s -> TcSoundHoles.wsM H 0 t ->
+  TcSoundHoles.tcN f s [] [] t = Some r -> b_errs r = [] -> TcSoundHoles.base_ty v = true ->
+  exists eu Tu,
+    TcSoundHF.zk (UnifyConsistent.fill v (b_st r)) t eu /\ TcSoundHF.zk (UnifyConsistent.fill v (b_st r)) (b_ty r) Tu /\
+    has_type [] eu Tu /\
+    forall g w, evaluate g eu = Some w -> has_type [] w Tu /\ (is_value w = true \/ div_stuck w).
+Proof. exact SafetyHoles.accepted_programs_with_inferred_annotations_are_safe. Qed.
+Check C01_accepted_programs_with_inferred_annotations_are_safe : forall H f s t r v,
+  TcHolesOk.simple t = true -> ConfluenceEval.no_let t = true ->
+  TcHolesOk.J s -> TcSoundHoles.store_okM H s -> AcyclicProofs.acyclic s -> TcSoundHoles.wsM H 0 t ->
+  TcSoundHoles.tcN f s [] [] t = Some r -> b_errs r = [] -> TcSoundHoles.base_ty v = true ->
+  exists eu Tu,
+    TcSoundHF.zk (UnifyConsistent.fill v (b_st r)) t eu /\ TcSoundHF.zk (UnifyConsistent.fill v (b_st r)) (b_ty r) Tu /\
+    has_type [] eu Tu /\
+    forall g w, evaluate g eu = Some w -> has_type [] w Tu /\ (is_value w = true \/ div_stuck w).
+Print Assumptions C01_accepted_programs_with_inferred_annotations_are_safe.
+
